@@ -47,7 +47,7 @@ type Prop struct {
 type tssSig = tsscommon.SignatureData
 
 type Case struct {
-	Mode string `json:"mode"` // digest | sig | sigsyn | sigraw | kec | multi | exec | submit
+	Mode string `json:"mode"` // digest | sig | sigsyn | sigraw | kec | multi | exec | execlite | submit
 	// digest
 	Via      string `json:"via,omitempty"` // direct | evm | substrate
 	Version  string `json:"version,omitempty"`
@@ -105,6 +105,7 @@ type Obs struct {
 	// exec
 	Sessions []SessObs `json:"sessions,omitempty"`
 	Complete bool      `json:"complete,omitempty"`
+	Crashed  bool      `json:"crashed,omitempty"` // exec / execlite: an Execute ended in a Go panic
 	Note     string    `json:"note,omitempty"`
 	// submit
 	SubEvm []Prop `json:"sub_evm,omitempty"`
@@ -294,6 +295,8 @@ func run(c Case) Obs {
 		return runMulti(c)
 	case "exec":
 		return runExec(c)
+	case "execlite":
+		return runExecLite(c)
 	case "submit":
 		return runSubmit(c)
 	}
@@ -552,8 +555,32 @@ func gen(r *vgen.Rng, tier string) []Case {
 		}
 		return c
 	}
-	heavy = append(heavy, execEvm(3, 2, "p1", false, 0), execEvm(2, 2, "", true), execSub(3, true))
+	// over-cap proposals (gasLimit metadata): with the FIRST PENDING proposal alone reaching the cap the batch
+	// list starts with an empty batch ([<empty>, {p}, ...]: the sessions are <mid>-1, <mid>-2, ...); elsewhere
+	// the proposal gets a batch of its own.  lead = proposals executed at delivery in front of it.
+	execEvmBig := func(n, per, big, lead int, sched string) Case {
+		c := execEvm(1, n, sched, false)
+		c.Cap = uint64(per)*100 + 50
+		l := c.Cap - uint64(r.Intn(100))
+		c.Props[big].Limit = &l
+		for i := 0; i < lead; i++ {
+			c.Executed = append(c.Executed, i)
+		}
+		return c
+	}
+	heavy = append(heavy, execEvm(3, 2, "p1", false, 0), execEvm(2, 2, "", true), execSub(3, true),
+		execEvmBig(4, 2, 1, 1, "p1"))
+	// the same without signing (one relayer): an over-cap proposal at every position
+	for n := 2; n <= 4; n++ {
+		for big := 0; big < n; big++ {
+			if thorough || n == 3 || big == 0 {
+				out = append(out, genExecLite(r, n, r.Range(1, 2), big, 0, smallProp))
+			}
+		}
+		out = append(out, genExecLite(r, n+1, r.Range(1, 2), 1, 1, smallProp))
+	}
 	if thorough {
+		heavy = append(heavy, execEvmBig(2, 1, 0, 0, ""), execEvmBig(3, 1, 0, 0, "p1"), execEvmBig(3, 2, 1, 0, ""), execEvmBig(4, 1, 2, 2, ""), execEvmBig(3, 2, 2, 0, "p1"))
 		heavy = append(heavy, execSub(2, false), execEvm(3, 1, "p1", false, 0), execEvm(4, 2, "", true), execEvm(4, 2, "p1", true, 1), execEvm(3, 3, "p1", true),
 			execSub(4, true), execSub(1, false))
 	}
@@ -646,11 +673,11 @@ func coq(c Case, o Obs) string {
 			via := map[string]string{"direct": "Direct", "evm": "Evm", "substrate": "Substrate"}[t.Via]
 			return "(Tup " + via + " " + vgen.Str(t.Version) + " " + fmt.Sprintf("%d%%N", t.Chain) + " " + hexLit(t.Contract) + " " + vgen.ListOf(t.Props, coqProp) + ")"
 		}) + " " + vgen.ListOf(o.Seen, func(s Seen) string { return vgen.Pair(vgen.Nat(s.Idx), hexLit(s.Digest)) })
-	case "exec":
+	case "exec", "execlite":
 		via := map[string]string{"evm": "Evm", "substrate": "Substrate"}[c.Via]
 		return "Exec " + via + " " + fmt.Sprintf("%d%%N", c.Chain) + " " + hexLit(c.Contract) + " " + vgen.ListOf(o.Sessions, func(s SessObs) string {
 			return "(Sess " + vgen.Str(s.Sid) + " " + vgen.ListOf(s.Batch, coqProp) + " " + hexLit(s.Signed) + " " + vgen.ListOf(s.Submitted, coqProp) + ")"
-		}) + " " + vgen.Bool(o.Complete)
+		}) + " " + vgen.Bool(o.Complete) + " " + vgen.Bool(o.Crashed)
 	case "submit":
 		return "Submit " + fmt.Sprintf("%d%%N", c.Chain) + " " + hexLit(c.Contract) + " " + vgen.ListOf(c.Props, coqProp) + " " +
 			vgen.ListOf(o.SubEvm, coqProp) + " " + vgen.ListOf(o.SubSub, coqProp) + " " + vgen.Bool(o.PassedOK)
@@ -672,7 +699,7 @@ func main() {
 		Coq:       coq,
 		Kind: func(c Case) string {
 			switch c.Mode {
-			case "digest", "exec":
+			case "digest", "exec", "execlite":
 				return c.Mode + "-" + c.Via
 			case "multi":
 				if c.Workers > 0 {
@@ -692,10 +719,12 @@ func main() {
 				return len(c.Tuples) > 1
 			case "exec":
 				return len(o.Sessions) > 0
+			case "execlite":
+				return o.Complete || o.Crashed
 			}
 			return true
 		},
-		Rule:      "digest: batches of 0..5 proposals (data lengths 0,1,31,32,33,135,136,137,300 and random; domains 0/1/255; nonces 0/1/2^63/2^64-1; resource ids zero/ff/random) x chain ids (0,1,2^63-1,random) x contracts (zero, ff, random) through chains.ProposalsHash, BridgeContract.ProposalsHash and Pallet.ProposalsHash, plus base batches with single-field neighbours (order, version, chain id, contract); sig: real secp256k1 signatures (with forced leading-zero r / s) assembled by the real executeBatch and executeProposal and recovered with crypto.SigToPub; sigsyn: boundary and random r,s; sigraw: arbitrary slices as coded; kec: crypto.Keccak256 on every length 0..300; multi: 4-6 tuples differing pairwise in one component hashed by the real entry points in one process in a sequence with repetitions and by 4-16 goroutines concurrently; submit: the real executeBatch (through the real BridgeContract.ExecuteProposals, call data decoded) / executeProposal on 2-4-member batches with some or all members executed when the signature arrives; exec: three relayers run the real EVM / Substrate Executor.Execute with the real coordinator and real threshold ECDSA (multi-batch deliveries, GOMAXPROCS(1) dispatch with a failing digest request, members executed at delivery or between hashing and signature, equal nonces from different origins), per session the signed digest (ecrecover) and the submitted batch. distinct = distinct input JSON; non-trivial = non-empty batch / non-empty message / every signature case",
+		Rule:      "digest: batches of 0..5 proposals (data lengths 0,1,31,32,33,135,136,137,300 and random; domains 0/1/255; nonces 0/1/2^63/2^64-1; resource ids zero/ff/random) x chain ids (0,1,2^63-1,random) x contracts (zero, ff, random) through chains.ProposalsHash, BridgeContract.ProposalsHash and Pallet.ProposalsHash, plus base batches with single-field neighbours (order, version, chain id, contract); sig: real secp256k1 signatures (with forced leading-zero r / s) assembled by the real executeBatch and executeProposal and recovered with crypto.SigToPub; sigsyn: boundary and random r,s; sigraw: arbitrary slices as coded; kec: crypto.Keccak256 on every length 0..300; multi: 4-6 tuples differing pairwise in one component hashed by the real entry points in one process in a sequence with repetitions and by 4-16 goroutines concurrently; submit: the real executeBatch (through the real BridgeContract.ExecuteProposals, call data decoded) / executeProposal on 2-4-member batches with some or all members executed when the signature arrives; exec: three relayers run the real EVM / Substrate Executor.Execute with the real coordinator and real threshold ECDSA (multi-batch deliveries, GOMAXPROCS(1) dispatch with a failing digest request, members executed at delivery or between hashing and signature, equal nonces from different origins, an over-cap proposal as first pending proposal = a leading empty batch), per session the signed digest (ecrecover) and the submitted batch, and whether Execute crashed; execlite: one relayer without peers runs the real EVM Execute on deliveries of 2..5 proposals with an over-cap proposal at every position (crash, digest requests). distinct = distinct input JSON; non-trivial = non-empty batch / non-empty message / every signature case",
 		ShardSize: shardSize,
 	})
 }
